@@ -15,8 +15,8 @@
    channel: the real consumer blocks). The consumer "lags" when LTake steps are rare: batches wait in the
    channel (lg_queue, oldest first), at most [cap] of them; one more evicts the oldest (which sendResult does
    NOT count in droppedCount: lg_evicted is a ghost counter, lg_sent / lg_dropped are the code's counters).
-   Not modelled: the "block" strategy of sendResult (timeout, then the NEW batch is dropped and counted); the
-   harness never fills the channel beyond its capacity under that strategy. *)
+   The "block" strategy of sendResult (timeout, then the NEW batch is dropped and counted) is modelled on the
+   same states and steps in Model/CountingBlock.v. *)
 From SV Require Export Model.Counting.
 
 Notation kbatch := (bytes * list krow)%type (only parsing).
